@@ -438,4 +438,99 @@ theorem update_chain (h : Heap) (ty' : VType) (val' : Data) (md' : Meta) : ∀ (
         · cases hstep
     · cases hr
 
+/-! ### a raw leaf at an array attribute rewrites exactly that attribute -/
+
+theorem setKV_keys {α : Type} (k : Key) (v : α) : ∀ l : List (Key × α), (setKV k v l).map (·.1) = l.map (·.1)
+  | [] => rfl
+  | (k', v') :: r => by
+    simp only [setKV]
+    by_cases e : k' = k
+    · simp [e]
+    · simp [e, setKV_keys k v r]
+
+theorem lookupKV_setKV {α : Type} (k k' : Key) (v : α) : ∀ l : List (Key × α),
+    lookupKV k' (setKV k v l) = if k' = k then (lookupKV k l).map (fun _ => v) else lookupKV k' l
+  | [] => by simp [setKV, lookupKV]
+  | (k0, v0) :: r => by
+    simp only [setKV]
+    by_cases e : k0 = k
+    · subst e
+      by_cases e' : k' = k0
+      · subst e'; simp [lookupKV]
+      · have : k0 ≠ k' := fun x => e' x.symm
+        simp [lookupKV, e', this]
+    · simp only [e, if_false, lookupKV]
+      by_cases e2 : k0 = k'
+      · subst e2; simp [e]
+      · simp only [e2, if_false]; exact lookupKV_setKV k k' v r
+
+/-- `setAttr` touches one object, and in it one slot -/
+theorem setAttr_spec {h : Heap} {a : Addr} {cls : String} {attrs : List (Key × PVal)} (k : Key) (v : PVal)
+    (hg : h[a]? = some (.node cls attrs)) :
+    (setAttr h a k v).length = h.length ∧ (setAttr h a k v)[a]? = some (.node cls (setKV k v attrs)) ∧
+    ∀ (b : Nat), b ≠ a → (setAttr h a k v)[b]? = h[b]? := by
+  have hlt : a < h.length := (List.getElem?_eq_some_iff.mp hg).1
+  simp only [setAttr, hg]
+  exact ⟨write_length _ _ _, write_get _ _ _ hlt, fun b hb => write_frame _ _ _ _ hb⟩
+
+theorem chain_snoc_not_vleaf : ∀ (p : Path) (k : Key) (l : Leaf), isVStateLeaf (chain (p ++ [k]) l) = false
+  | [], _, _ => rfl
+  | _ :: _, _, _ => rfl
+
+/-- **a raw leaf at the path of an array attribute rewrites exactly that attribute** -/
+theorem update_array_chain (h : Heap) (k : Key) (d : Data) : ∀ (p : Path) (root : PVal) (a0 : Addr) cls attrs d0,
+    resolve h root p = some (.ref a0) → h[a0]? = some (.node cls attrs) → lookupKV k attrs = some (.array d0) →
+    updateVal (chain (p ++ [k]) (.arr d)) h root = .ok (setAttr h a0 k (.array d))
+  | [], root, a0, cls, attrs, d0, hr, hg, hl => by
+    simp [resolve] at hr; subst hr
+    simp [chain, updateVal, hg, updateItems, hl]
+  | k1 :: p, root, a0, cls, attrs, d0, hr, hg, hl => by
+    simp only [resolve] at hr
+    split at hr
+    · next cur hstep =>
+      have hrec := update_array_chain h k d p cur a0 cls attrs d0 hr hg hl
+      have loop : ∀ (owner : Option Addr) (attrs1 : List (Key × PVal)), lookupKV k1 attrs1 = some cur →
+          updateItems [(k1, chain (p ++ [k]) (.arr d))] h owner attrs1 = .ok (setAttr h a0 k (.array d)) := by
+        intro owner attrs1 hl1
+        simp only [updateItems, hl1]
+        cases cur with
+        | static s =>
+          cases p with
+          | nil => simp [resolve] at hr
+          | cons k2 p2 => simp [resolve, step] at hr
+        | array dd =>
+          cases p with
+          | nil => simp [resolve] at hr
+          | cons k2 p2 => simp [resolve, step] at hr
+        | ref b =>
+          simp only
+          cases hb : h[b]? with
+          | none =>
+            cases p with
+            | nil => simp [resolve] at hr; subst hr; rw [hg] at hb; cases hb
+            | cons k2 p2 => simp [resolve, step, hb] at hr
+          | some o =>
+            cases o with
+            | var _ _ _ =>
+              cases p with
+              | nil => simp [resolve] at hr; subst hr; rw [hg] at hb; cases hb
+              | cons k2 p2 => simp [resolve, step, hb] at hr
+            | node cls2 attrs2 =>
+              simp only [chain_snoc_not_vleaf, Bool.false_eq_true, if_false, hrec, updateItems]
+        | none => simp only [chain_snoc_not_vleaf, Bool.false_eq_true, if_false, hrec, updateItems]
+        | seq t xs => simp only [chain_snoc_not_vleaf, Bool.false_eq_true, if_false, hrec, updateItems]
+        | dict kvs => simp only [chain_snoc_not_vleaf, Bool.false_eq_true, if_false, hrec, updateItems]
+      cases root with
+      | static s => simp [step] at hstep
+      | array dd => simp [step] at hstep
+      | none => simp [step] at hstep
+      | seq t xs => simp only [List.cons_append, chain, updateVal]; exact loop _ _ (by simpa [step] using hstep)
+      | dict kvs => simp only [List.cons_append, chain, updateVal]; exact loop _ _ (by simpa [step] using hstep)
+      | ref a1 =>
+        simp only [step] at hstep
+        split at hstep
+        · next cls1 attrs1 hget => simp only [List.cons_append, chain, updateVal, hget]; exact loop _ _ hstep
+        · cases hstep
+    · cases hr
+
 end Flax.Graph
